@@ -561,9 +561,9 @@ bool Instance::configure_tx_txin() {
             fprintf(stderr, "invalid script (witness stack last element)\n");
             return false;
         }
-        // put remainder on to-be-parsed stack
+        // put remainder on the stack, as is (re-parsing the hex as a Value turns e.g. the item 0x10 into the number 10 = 0x0a)
         for (size_t i = 0; i < wstack_to_stack; i++) {
-            push_del.push_back(strdup(HexStr(wstack[i]).c_str())); // TODO: use as is rather than hexing and dehexing
+            stack.push_back(wstack[i]);
         }
     } else {
         // legacy
